@@ -6,6 +6,8 @@
 #include "hx.h"
 #include "hx_req.h"
 #include "http_range.c"
+#include "http_date.h"
+#include "log.h"
 #include <fcntl.h>
 
 static void set_rq(request_st *r, enum http_header_e id, const char *k, size_t kl, const char *t) {
@@ -36,6 +38,14 @@ int main(void) {
             printf("%d", cnt / 2);
             for (int i = 0; i < cnt; i += 2) printf(" %lld-%lld", (long long)ranges[i], (long long)ranges[i+1]);
             putchar('\n'); free(s);
+            continue;
+        }
+        if (hx_ntok >= 3 && hx_tok[0][0] == 'D') {
+            /* D <lmtime> <hex If-Modified-Since>  ->  0 (not modified since) | 1 (modified since, or unparsable date) */
+            size_t n; char *v = hx_dec(hx_tok[2], &n);
+            log_epoch_secs = 1700000000; /*(RFC 850 two-digit-year pivot: 2023)*/
+            printf("%d\n", http_date_if_modified_since(v ? v : "", (uint32_t)n, (unix_time64_t)atoll(hx_tok[1])));
+            free(v);
             continue;
         }
         if (hx_ntok < 12 || hx_tok[0][0] != 'R') { puts("?"); continue; }
